@@ -97,7 +97,7 @@ def role_coherence(facts, fn, sr, call, op, slots, res, R="C02.1.role-coherence"
                 vec = [x for p2, _io, x in items if x["kind"] == "vec"]
                 cnt = [x for p2, _io, x in items if p2 == "count"]
                 for fill in s["fills"]:
-                    vo = sr.fm.origin(fill["value"])
+                    vo = (s.get("filler_fm") or sr.fm).origin(fill["value"])
                     for _p, a in accs:
                         if a.get("fill_node") is None:
                             continue
@@ -111,7 +111,7 @@ def role_coherence(facts, fn, sr, call, op, slots, res, R="C02.1.role-coherence"
                         if not okp:
                             res.violation(R, f, fnq, "%s:%s.positions" % (key0, role), fill["node"]["l"][1],
                                           "position code '%s' is not derived from the same cell / interaction record as the %s it accompanies (%s[%s])" % (vo, role, a["group"], a["index"]))
-                        if not same_compound(fill["node"], a["fill_node"]):
+                        if not s.get("foreign") and not same_compound(fill["node"], a["fill_node"]):
                             res.violation(R, f, fnq, "%s:%s.lockstep" % (key0, role), fill["node"]["l"][1], "position code and cell reference of the %s are not appended in the same block" % role)
     # cross-role: target and sources / source and target / code come from the same interaction record
     recs = {}
@@ -151,6 +151,11 @@ def fill_idiom(facts, fn, sr, call, op, slots, res, R="C02.3.array-fill"):
     fm = sr.fm
     for i, ((role, part, io), s) in enumerate(zip(roles, slots)):
         if part != "positions" or s["kind"] != "arr":
+            continue
+        if s.get("foreign"):
+            # filled once by another member function: what its slots hold is judged by role coherence (same cells, same order) - the
+            # counter idiom of a local array does not apply
+            res.instance(R, "%s %s@%d:%s" % (fnq, op, call["l"][1], s["name"]), facts.loc(call), "member array filled by %s()" % s["foreign"]["name"])
             continue
         cnt = [x for (r2, p2, _io), x in zip(roles, slots) if r2 == role and p2 == "count"]
         if len(cnt) != 1 or cnt[0]["kind"] != "count":
